@@ -580,8 +580,30 @@ def cli1(ctx, c):
     cfvar = U(cf[0].targets[0])
     kw = {k.arg: U(k.value) for k in cf[0].value.keywords}
     want = {"name": "%s.name or args.name" % prog, "load_addr": "%s.origin" % prog, "exec_addr": "%s.origin" % prog, "data": "%s.get_binary_array()" % prog}
+    from ..consteval import fold, NotConst
+    knodes = {k.arg: k.value for k in cf[0].value.keywords}
     for k, v in want.items():
-        c.check(kw.get(k) == v, "assembler.main:CoCoFile.%s" % k, v, "%s = %s" % (k, kw.get(k)), "assembler.py builds the saved file with %s=%s; it must be %s" % (k, kw.get(k), v), repo.loc(fn, cf[0]))
+        if k not in kw:
+            c.undecided("assembler.main:CoCoFile.%s" % k, "keyword-not-passed", "", repo.loc(fn, cf[0]))
+            continue
+        if kw.get(k) == v:
+            c.ok("assembler.main:CoCoFile.%s" % k, v, repo.loc(fn, cf[0]))
+            continue
+        if k == "name":
+            # NAM first, --name as fallback: decide by the value table of the expression
+            try:
+                tbl = {(pn, an): fold(knodes[k], {"%s.name" % prog: pn, "args.name": an}) for pn in (None, "", "P") for an in (None, "A")}
+                good = all(tbl[(pn, an)] == (pn if pn else an) for pn, an in tbl)
+                c.check(good, "assembler.main:CoCoFile.name", "NAM operand, else --name", "name = %s" % kw.get(k),
+                        "assembler.py names the saved file %s; the NAM operand must win and --name is the fallback" % kw.get(k), repo.loc(fn, cf[0]))
+            except NotConst:
+                c.undecided("assembler.main:CoCoFile.name", "name-expression-not-evaluable", kw.get(k), repo.loc(fn, cf[0]))
+            continue
+        mentions_prog = prog in kw.get(k)
+        if re.fullmatch(r"%s\.\w+(\(\))?" % re.escape(prog), kw.get(k)) or not mentions_prog:
+            c.finding("assembler.main:CoCoFile.%s" % k, "%s = %s" % (k, kw.get(k)), "assembler.py builds the saved file with %s=%s; it must be %s" % (k, kw.get(k), v), repo.loc(fn, cf[0]))
+        else:
+            c.undecided("assembler.main:CoCoFile.%s" % k, "expression-not-recognised", kw.get(k), repo.loc(fn, cf[0]))
     for k, v in (("type", 0x02), ("data_type", 0x00)):
         node = next((x.value for x in cf[0].value.keywords if x.arg == k), None)
         val = try_fold(node.args[0]) if isinstance(node, ast.Call) and U(node.func) == "NumericValue" and node.args else None
